@@ -63,56 +63,59 @@ def check_paired(ctx, wm: WeaverModel):
                       'y -> reference_y substituted (same resolved callee / operator, same non-series arguments after parameter binding), under the same guard; '
                       'the callee is pure (no in-place writes to its parameters, no randomness)')
     n = 0
-    for op in DOMAIN_OPS:
-        mf = wm.methods.get(op)
-        if mf is None:
-            raise AnalysisError(f"C08.2: domain operation Weaver.{op} not found")
-        if mf.issues:
-            raise AnalysisError(f"C08.2: Weaver.{op} not canonicalisable: {mf.issues[:3]}")
-        ls = last_stores(mf)
-        touched = [f for f in ('x', 'y') if f in ls]
-        if not touched:
-            ctx.fail('C08.2', f"{op}: transforms the working series", 'no store to x or y', mf.fi.loc(), mf.fi.qualname, f"{op}:nostore")
-            continue
-        for f in ('x', 'y'):
-            rf = 'reference_' + f
-            if f in ls or rf in ls:
-                n += 1
-            if f in ls and rf not in ls:
-                ctx.fail('C08.2', f"{op}: the transformation of {f} is also applied to {rf}",
-                         f"{op} stores self.{f} = {show(ls[f][-1].data['value'], 160)} but never stores self.{rf}", ls[f][-1].loc(), mf.fi.qualname, f"{op}:{rf}:missing")
+    for op0 in DOMAIN_OPS:
+        if wm.methods.get(op0) is None:
+            raise AnalysisError(f"C08.2: domain operation Weaver.{op0} not found")
+        for label, mf in wm.variants_of(op0):
+            op = op0 if not label else f"{op0}[{label}]"
+            if mf.issues:
+                raise AnalysisError(f"C08.2: Weaver.{op} not canonicalisable: {mf.issues[:3]}")
+            ls = last_stores(mf)
+            touched = [f for f in ('x', 'y') if f in ls]
+            if not touched:
+                ctx.fail('C08.2', f"{op}: transforms the working series", 'no store to x or y', mf.fi.loc(), mf.fi.qualname, f"{op}:nostore")
                 continue
-            if rf in ls and f not in ls:
-                ctx.fail('C08.2', f"{op}: {rf} changes only together with {f}", f"store to {rf} without a store to {f}", ls[rf][-1].loc(),
-                         mf.fi.qualname, f"{op}:{f}:missing")
-                continue
-            if f not in ls:
-                continue
-            ew, er = ls[f][-1], ls[rf][-1]
-            want = rename_refs(ew.data['value'], W2R)
-            # the working length symbol becomes the reference length symbol
-            want = want.subst(lambda r: sym.subst(r, {_a(wm.Lw): wm.Lr})) if hasattr(want, 'subst') else want
-            got = er.data['value']
-            ok = veq(got, want)
-            ctx.check(ok, 'C08.2', f"{op}: reference_{f} receives the same transformation as {f}",
-                      f"stored to {f}:           {show(ew.data['value'], 300)}\nexpected for reference:  {show(want, 300)}\nstored to reference_{f}: {show(got, 300)}",
-                      er.loc(), mf.fi.qualname, f"{op}:{rf}")
-            # guards must agree (a reference update skipped on some path breaks the invariant)
-            gw = [g for g in ew.guard]
-            gr = [g for g in er.guard]
-            same_guard = len(gw) == len(gr) and all(veq(a, b) for a, b in zip(gw, gr))
-            ctx.check(same_guard, 'C08.2', f"{op}: {f} and reference_{f} are updated on the same paths",
-                      f"guard of {f}: {[str(g)[:80] for g in gw]}; guard of reference_{f}: {[str(g)[:80] for g in gr]}", er.loc(), mf.fi.qualname,
-                      f"{op}:{rf}:guard")
-            # the reference update must not read the working series (and vice versa)
-            bad = refs_in(got) & {'self.x', 'self.y', 'self.original_x', 'self.original_y'}
-            ctx.check(not bad, 'C08.2', f"{op}: the new reference_{f} is computed from the reference (and arguments) only", f"reads {sorted(bad)}",
-                      er.loc(), mf.fi.qualname, f"{op}:{rf}:reads")
-            ctx.sample({'rule': 'C08.2', 'op': op, 'field': f, 'working': show(ew.data['value'], 140), 'reference': show(got, 140)})
-        # every store of the series fields is accounted for: no third series written except by design (normalise renormalises the original)
-        for fld in ls:
-            if fld in ('original_x', 'original_y') and not op.startswith('normalize'):
-                ctx.fail('C08.3', f"{op}: the stored original is not written", f"store to {fld}", ls[fld][-1].loc(), mf.fi.qualname, f"{op}:{fld}")
+            for f in ('x', 'y'):
+                rf = 'reference_' + f
+                if f in ls or rf in ls:
+                    n += 1
+                if f in ls and rf not in ls:
+                    ctx.fail('C08.2', f"{op}: the transformation of {f} is also applied to {rf}",
+                             f"{op} stores self.{f} = {show(ls[f][-1].data['value'], 160)} but never stores self.{rf}", ls[f][-1].loc(), mf.fi.qualname, f"{op}:{rf}:missing")
+                    continue
+                if rf in ls and f not in ls:
+                    ctx.fail('C08.2', f"{op}: {rf} changes only together with {f}", f"store to {rf} without a store to {f}", ls[rf][-1].loc(),
+                             mf.fi.qualname, f"{op}:{f}:missing")
+                    continue
+                if f not in ls:
+                    continue
+                ew, er = ls[f][-1], ls[rf][-1]
+                want = rename_refs(ew.data['value'], W2R)
+                # the working length symbol becomes the reference length symbol
+                want = want.subst(lambda r: sym.subst(r, {_a(wm.Lw): wm.Lr})) if hasattr(want, 'subst') else want
+                got = er.data['value']
+                # induction hypothesis on entry: working == reference, in particular the two have the same length
+                got_h = got.subst(lambda r: sym.subst(r, {_a(wm.Lw): wm.Lr})) if hasattr(got, 'subst') else got
+                ok = veq(got, want) or veq(got_h, want)
+                ctx.check(ok, 'C08.2', f"{op}: reference_{f} receives the same transformation as {f}",
+                          f"stored to {f}:           {show(ew.data['value'], 300)}\nexpected for reference:  {show(want, 300)}\nstored to reference_{f}: {show(got, 300)}",
+                          er.loc(), mf.fi.qualname, f"{op}:{rf}")
+                # guards must agree (a reference update skipped on some path breaks the invariant)
+                gw = [g for g in ew.guard]
+                gr = [g for g in er.guard]
+                same_guard = len(gw) == len(gr) and all(veq(a, b) for a, b in zip(gw, gr))
+                ctx.check(same_guard, 'C08.2', f"{op}: {f} and reference_{f} are updated on the same paths",
+                          f"guard of {f}: {[str(g)[:80] for g in gw]}; guard of reference_{f}: {[str(g)[:80] for g in gr]}", er.loc(), mf.fi.qualname,
+                          f"{op}:{rf}:guard")
+                # the reference update must not read the working series (and vice versa)
+                bad = refs_in(got) & {'self.x', 'self.y', 'self.original_x', 'self.original_y'}
+                ctx.check(not bad, 'C08.2', f"{op}: the new reference_{f} is computed from the reference (and arguments) only", f"reads {sorted(bad)}",
+                          er.loc(), mf.fi.qualname, f"{op}:{rf}:reads")
+                ctx.sample({'rule': 'C08.2', 'op': op, 'field': f, 'working': show(ew.data['value'], 140), 'reference': show(got, 140)})
+            # every store of the series fields is accounted for: no third series written except by design (normalise renormalises the original)
+            for fld in ls:
+                if fld in ('original_x', 'original_y') and not op.startswith('normalize'):
+                    ctx.fail('C08.3', f"{op}: the stored original is not written", f"store to {fld}", ls[fld][-1].loc(), mf.fi.qualname, f"{op}:{fld}")
     ctx.floor('C08.2', n, 14, 'paired (series, reference) updates over the ten domain operations')
     # purity / determinism of the callees used by domain operations
     aa = alias(ctx)
@@ -240,6 +243,9 @@ def run(ctx):
     check_establish(ctx, wm)
     check_paired(ctx, wm)
     check_frame(ctx, wm)
+    from .common import dt_weaver, DT_RULE
+    ctx.rule('C08.5', DT_RULE)
+    dt_weaver(ctx, 'C08.5', wm, list(wm.methods))
     ctx.rule('C08.4', 'no in-place write site reachable from a Weaver method has the reference or the original in its alias class')
     ctx.notes.append('History quantifier discharged by induction: Inv-R/Inv-W established by C08.1, preserved by C08.2 (domain) and C08.3 (all other methods).')
     ctx.notes.append('NOT DECIDED here: that each transformation is the documented one (C11, C12, C14, C17); the numeric corollary about recreate+match.')
